@@ -417,6 +417,34 @@ def _run_case(case):
         out.failures.append(Failure('monotone', f'C05/monotone/{mono["what"]}/{kind}/'
                                     f'bin={classes[idx][jbin]}',
                                     f'verdict False became True after: {desc}'))
+    # ---- history: the SAME dataset objects, already compared above, now hold the modified
+    # numbers (in place); a new comparison must see the datasets as they are now, i.e. agree
+    # with the comparison of freshly built datasets holding the same numbers
+    def overwrite(dst, src):
+        for attr in ('value', 'error'):
+            cur = getattr(dst, attr)
+            if isinstance(cur, np.ndarray) and cur.ndim:
+                cur[...] = getattr(src, attr)
+            else:
+                setattr(dst, attr, getattr(src, attr))
+    overwrite(ref, mref)
+    for dst, src in zip(others, mods):
+        overwrite(dst, src)
+    try:
+        fresh = TestStudent(mref, *mods, name='m', alpha=alpha, ndf=ndf).evaluate()
+        stale = TestStudent(ref, *others, name='m', alpha=alpha, ndf=ndf).evaluate()
+    except Exception as exc:
+        out.failures.append(exc_failure('evaluate_raises', exc, f'{kind}/{law}/inplace'))
+    else:
+        out.labels.append('re-evaluated-after-in-place-change')
+        same = bool(fresh) == bool(stale) and all(
+            np.array_equal(np.asarray(a), np.asarray(b), equal_nan=True)
+            for a, b in zip(fresh.tstud, stale.tstud))
+        if not same:
+            out.failures.append(Failure('history', f'C05/history/inplace/{mono["what"]}/{kind}',
+                                        f'after {desc} IN PLACE, the datasets compared before '
+                                        f'give verdict {bool(stale)} (fresh datasets with the '
+                                        f'same numbers: {bool(fresh)}) or different t values'))
     out.info = {'critical_value': crit, 'verdict': verdict, 'reference_verdict': verdict_ref,
                 'bin_classes': sorted(allcls)}
     return out
